@@ -72,8 +72,82 @@ let first_reject (log : event list) : string =
          | None -> Printf.sprintf "call %d %s: %s" k (show_event e) (why s e)) in
   go 0 rinit log
 
+let add k n = Hashtbl.replace counters k (n + try Hashtbl.find counters k with Not_found -> 0)
+
+(* ---------- large runs ----------
+   The list-based oracle is quadratic in the number of instances.  The call log of a large run is read as a plan over
+   instance ids in the language of the abstract executor (Exec.v): root = emerge, s.Fork -> ts = fork of s onto ts,
+   Consume = commit, i.Merge(os) = merge of i :: os, Hibernate / Boot, Finalize = delete (needs the instance live and
+   awake and retires it), and judged by fast_c04 (C04_fast_exact): instances are created once, every call finds its
+   instance existing, awake and not finalized, Boot only of hibernated instances, merges join distinct instances whose
+   last commit is the same, nothing is left hibernated.  Not judged at this size: that the finalized instance has
+   incorporated every commit. *)
+let faction_of_event (it : int) (e : sx) : faction option =
+  let z x = z_of_int (int_of_sx x) in
+  let mk k c its = Some { fkind = k; fcommit = c; fitems = its } in
+  match tag e, args e with
+  | _, i :: _ when int_of_sx i <> it -> None
+  | "root", [_; i] -> mk KEmerge None [z i]
+  | "fork", [_; s; ts] -> mk KFork None (z s :: List.map z (list_of_sx ts))
+  | "con", [_; i; c] ->
+      let c = int_of_sx c in
+      if c < 0 then failwith "Consume of a commit that is not in the commit list";
+      mk KCommit (Some (n_of_int c)) [z i]
+  | "merge", [_; i; os] -> mk KMerge None (z i :: List.map z (list_of_sx os))
+  | "hib", [_; i] -> mk KHibernate None [z i]
+  | "boot", [_; i] -> mk KBoot None [z i]
+  | "disp", [_; _] -> None
+  | "fin", [_; i] -> mk KDelete None [z i]
+  | _ -> failwith ("unknown event " ^ string_of_sx e)
+
+let first_reject_fast (p : faction list) : string =
+  let rec go k m = function
+    | [] -> if fnothing_hibernated m then "no single call is rejected" else "an instance is left hibernated at the end of the run"
+    | a :: r ->
+        if fstep_okb m a && fmerge_same m a then go (k + 1) (fstep m a) r
+        else begin
+          let show b = match fget m b with
+            | None -> "does not exist" | Some (FLive, _) -> "is live" | Some (FHib, _) -> "is hibernated"
+            | Some (FDisp, _) -> "is finalized" in
+          let what = match a.fkind with
+            | KCommit -> "Consume" | KFork -> "Fork" | KMerge -> "Merge" | KEmerge -> "root" | KDelete -> "Finalize"
+            | KHibernate -> "Hibernate" | KBoot -> "Boot" in
+          Printf.sprintf "call %d %s%s on instance(s) %s" k what
+            (match a.fcommit with Some c -> Printf.sprintf "(commit %d)" (int_of_n c) | None -> "")
+            (String.concat "; " (List.filteri (fun i _ -> i < 12)
+               (List.map (fun b -> Printf.sprintf "#%d %s" (int_of_z b) (show b)) a.fitems)))
+        end in
+  go 0 finit p
+
+let scale_case id c =
+  let nitems = int_of_sx (List.hd (args (field "nitems" c))) in
+  let obs = field "obs" c in
+  let res = field "res" obs in
+  count "scale_runs";
+  match args res with
+  | A "ok" :: _ ->
+      count "runs_ok";
+      let evs = args (field "log" obs) in
+      for it = 0 to nitems - 1 do
+        let plan = List.rev (List.fold_left (fun acc e -> match faction_of_event it e with Some a -> a :: acc | None -> acc) [] evs) in
+        count "logs_judged"; add "scale_calls_judged" (List.length plan);
+        List.iter (fun a -> match a.fkind with
+          | KHibernate -> count "hibernate_calls" | KBoot -> count "boot_calls" | _ -> ()) plan;
+        let ninst = List.fold_left (fun m a -> List.fold_left (fun m b -> max m (int_of_z b)) m a.fitems) 0 plan in
+        if ninst >= 65536 then count "scale_runs_with_65536_instances";
+        if not (List.exists (fun a -> a.fkind = KDelete) plan) then
+          propfail id (Printf.sprintf "item %d: Finalize was never called in a large run" it)
+        else if not (fast_c04 plan) then
+          propfail id (Printf.sprintf "item %d: the call log of Pipeline.Run on a large history violates the branch lifecycle (fast_c04, instances as branches): %s"
+                         it (first_reject_fast plan))
+      done
+  | A "panic" :: _ -> propfail id "Pipeline.Run panicked on a valid large history"
+  | A "err" :: _ -> propfail id "Pipeline.Run returned an error on a valid large history with items that never fail"
+  | _ -> failwith "res"
+
 let () =
   iter_cases (fun id c ->
+    if field_opt "shape" c <> None then scale_case id c else
     (* the history as the harness builds it: a parent that is not an earlier commit of the list is dropped *)
     let commits = List.map (fun x -> match list_of_sx x with
       | [i; ps] -> (int_of_sx i, ints_of_sx ps) | _ -> failwith "commit") (args (field "commits" c)) in
